@@ -82,6 +82,7 @@ PROPS = {
     "C11": {
         "units": [
             {"pkg": "./c11", "run": "TestC11Selection|TestC11Handshakes|TestC11SourceHistories", "shards": 4, "shards_thorough": 8, "timeout": 900},
+            {"pkg": "./mainpkg", "run": "^TestC11", "shards": 2, "shards_thorough": 4, "timeout": 900},
             {"pkg": "./c11", "run": "TestC11ConcurrentReplacement", "race": True, "shards": 2, "shards_thorough": 4, "timeout": 900},
         ],
         "rule": ("rapid-generated certificate sets of 1-6 self-signed ECDSA certificates with common names and SAN lists drawn from a small universe with *.x wildcards at two depths and overlapping names, published "
@@ -90,7 +91,8 @@ PROPS = {
                  "wildcard -> first certificate of the set -> none when strict; the presented certificate must be one of the reference's candidates at the best level and belong to the most recently published set. "
                  "Concurrent (-race): 2-16 goroutines resolve names while two sets alternate: every answer is right for set A or for set B. Histories through the real PathSource (temp directory) and HTTPSource (file "
                  "server): good set, then unusable material (broken PEM, truncated certificate, key mismatch, missing key, garbage) for 2.5 s during which the served certificates must not change and the source is "
-                 "polled at most elapsed/1s + 2 times, then a new good set which must take effect. Non-trivial = set with >=2 certificates and a name matched at the exact or wildcard level; every history."),
+                 "polled at most elapsed/1s + 2 times, then a new good set which must take effect. Non-trivial = set with >=2 certificates and a name matched at the exact or wildcard level; every history. From-config form (mainpkg): 1-4 https listeners naming the same path certificate source, each with its own strictmatch/tlsmin, parsed by config.Load and turned into TLS configurations by main.go's "
+                 "makeTLSConfig; each answers covered / uncovered / absent server names according to its own strictmatch."),
         "technique": "rapid property tests against a reference selection model via GetCertificate and real TLS handshakes; concurrent replacement under the race detector; fault-injection histories through the real sources",
         "level_text": "Generated certificate sets and names are resolved by fabio's store (directly and in real handshakes) and by a reference model; replacement is exercised concurrently under the race detector; histories of good and unusable loads run through the production path and http sources with a poll-rate bound. Exploration only.",
         "level_note": "An emptied certificate directory is treated as a legitimate (empty) set and is not part of the 'unusable material' domain; visibility of a newly published set is waited for (up to 10-15 s) before selection is judged.",
@@ -187,7 +189,7 @@ PROPS = {
                  "recorder, against HTTPProxy + real upstream behind a real server with a raw client (same exchange with and without compression configured), and with 2-32 goroutines over the shared writer pool "
                  "under -race. Oracle: compressed only if accepts-gzip and type matches and not pre-encoded; then Content-Encoding gzip, no disagreeing Content-Length, gunzip(body) == inner bytes; otherwise body, "
                  "Content-Encoding, Content-Length, Content-Type identical to the exchange without the gzip handler; status always preserved; documented converse (must compress) for non-empty 2xx-5xx bodies. "
-                 "Non-trivial = compressed response with body written in >=2 chunks, or pre-encoded body; distinct by (status, type, encoding, chunk sizes, body hash)."),
+                 "Non-trivial = compressed response with body written in >=2 chunks, or pre-encoded body; distinct by (status, type, encoding, chunk sizes, body hash). Upstreams also send informational responses (103, 103+103, 102) before the final status (through the proxy), flush before anything is written and flush before a generated chunk."),
         "technique": "rapid property tests with gunzip round-trip and with/without-handler differential; concurrent per-goroutine oracle under the race detector",
         "level_text": "Generated responses are pushed through the gzip handler (directly, through the full proxy behind a real server, and concurrently) and checked by decompression round trip and by differential against the same exchange without compression. Exploration only.",
         "level_note": "Accept-Encoding values with q-values and '*' are outside the generated domain (the documentation defines acceptance as 'sets Accept-Encoding: gzip').",
@@ -215,7 +217,7 @@ PROPS = {
     },
     "C13": {
         "units": [
-            {"pkg": "./c13", "run": "TestC13Sequential|TestC13SelfRedirect", "shards": 4, "shards_thorough": 16, "timeout": 900},
+            {"pkg": "./c13", "run": "TestC13Sequential|TestC13SelfRedirect|TestC13FromServiceTags", "shards": 4, "shards_thorough": 16, "timeout": 900},
             {"pkg": "./c13", "run": "TestC13Concurrent", "race": True, "shards": 2, "shards_thorough": 4, "timeout": 900},
         ],
         "rule": ("rapid-generated redirect routes over the documented template forms (https://h$path, https://$host$path, http://h/$path, http://h/bbb$path, http://h/bbb/$path, fixed targets, $host with fixed path; "
@@ -223,7 +225,8 @@ PROPS = {
                  "(%2F %2f %20 %41 %C3%A9 %25 ...), queries, hosts with ports. Oracle: string-level model from the statement and docs (Location = template with $host -> request host and $path -> prepend + "
                  "strip(raw request path), request query carried when the target has none; for fixed targets only scheme/host/path asserted), configured status, zero upstream hits; self-redirect (same "
                  "X-Forwarded-Proto scheme, host, path) answered by the next matching host; under -race 2-32 goroutines with distinct paths/hosts on one route each get their own Location. "
-                 "Non-trivial = $path template and (encoded octet in the request path or strip/prepend); self-redirect cases with a fallback host; concurrent workloads."),
+                 "Non-trivial = $path template and (encoded octet in the request path or strip/prepend); self-redirect cases with a fallback host; concurrent workloads. From-tags form: the redirect route is one urlprefix- tag (redirect=<code>,<url> plus its strip/prepend) of a Consul registration whose 0-3 sibling tags carry options of their own, in any order; "
+                 "the commands fabio derives are loaded and the Location must follow the redirect tag's own options only; routes shorter than their strip path with the stripped piece at the front, further down or absent."),
         "technique": "rapid property tests against a string-level Location model; concurrent per-goroutine oracle under the race detector",
         "level_text": "Redirect responses produced by HTTPProxy + Table.Lookup for generated routes and requests are compared with a model of the documented template semantics, sequentially and under concurrent load with the race detector. Exploration only.",
         "level_note": "Request paths are ASCII with percent-encoded octets (raw non-ASCII bytes are re-encoded by net/url and are not 'the client's percent-encoding'). When a self-redirect has no other matching host the statement does not say what answers; only 'no upstream contacted' is asserted there.",
